@@ -12,7 +12,7 @@ META = dict(
 
 TOL = '0x1p-30'     # ~ 9.3e-10
 TOLW = '0x1p-21'    # ~ 4.8e-7: an exponent inside the serializer's 1e-8 window is rounded to the special gate
-PRE = (gates.COQ_HEADER + 'From Coq Require Import String.\nFrom VF Require Import Sim.Ref Vendor.IonQ.\n'
+PRE = (gates.COQ_HEADER + 'From Coq Require Import String.\nFrom VF Require Import Sim.Ref Vendor.IonQ Vendor.AQT.\n'
        'Open Scope string_scope.\n')
 PRE_D = ('From Coq Require Import List ZArith NArith Bool.\nFrom VF Require Import Base.Harness Codec.MetaChunks.\n'
          'Import ListNotations.\nOpen Scope Z_scope.\n')
@@ -551,6 +551,8 @@ def payload_oracle(cirq, mods, rep):
 
 def report(ctx, cirq, mods, stream, rep):
     """A case on which the model evaluated inside Coq disagrees: decide on the real code whether the property fails."""
+    if rep['kind'] == 'aqt_payload':
+        return report_aqt(ctx, cirq, mods, rep)
     try:
         holds, small = payload_oracle(cirq, mods, rep)
     except Exception as e:
@@ -567,6 +569,30 @@ def report(ctx, cirq, mods, stream, rep):
     ctx.disagree(f'correspondence:{stream}', f'payload means another unitary: {small["ops"]}', sig,
                  f'IonQ payload {shown} interpreted by the vendor gate definitions is not the unitary (up to global phase) '
                  f'of the circuit {small["ops"]}', dict(kind='ionq_payload', case=small))
+
+
+def report_aqt(ctx, cirq, mods, rep):
+    try:
+        holds = aqt_oracle(cirq, mods, rep)
+    except Exception as e:
+        ctx.mark_broken('correspondence:aqt_payload', f'oracle failed: {type(e).__name__}: {e}')
+        return
+    if holds:
+        ctx.mark_broken('correspondence:aqt_payload', f'Coq model and numpy reading of the AQT semantics disagree on {json.dumps(rep)[:600]}')
+        return
+    case = rep['case']
+    small = case
+    for o, st in zip(case['ops'], case['strat']):
+        sub = dict(kind='aqt_payload', case=dict(case, ops=[o], strat=[st]))
+        try:
+            if not aqt_oracle(cirq, mods, sub):
+                small = sub['case']
+                break
+        except Exception:
+            pass
+    ctx.disagree('correspondence:aqt_payload', f'{small["ops"]}', 'aqt_payload:' + '+'.join(o['fam'] for o in small['ops'][:2]),
+                 f'AQT operation list {aqt_payload(cirq, mods, small)[0][:300]} read by AQT\'s gate definitions is not the unitary (up to '
+                 f'global phase) of the circuit {small["ops"]}', dict(kind='aqt_payload', case=small))
 
 
 # ---------------------------------------------------------------------------------------------------
@@ -733,6 +759,14 @@ def replay_discrete(cirq, mods, rep):
         return e2e_oracle(cirq, mods, rep)
     if kind == 'ionq_reject':
         return reject_oracle(cirq, mods, rep)
+    if kind == 'aqt_payload':
+        return aqt_oracle(cirq, mods, rep)
+    if kind == 'aqt_results':
+        return aqt_results_oracle(cirq, mods, rep)
+    if kind == 'aqt_reject':
+        return aqt_reject_oracle(cirq, mods, rep)
+    if kind == 'pasqal':
+        return pasqal_oracle(cirq, mods, rep)
     raise KeyError(kind)
 
 
@@ -1128,6 +1162,435 @@ def reject_stream(ctx, cirq, mods, n_rounds):
                          f'returned differs from the circuit', rep)
 
 
+# ---------------------------------------------------------------------------------------------------
+# AQT: the operation list of AQTSampler._generate_json and the v1 payload of _parse_legacy_circuit_json
+# ---------------------------------------------------------------------------------------------------
+def gen_aqt_case(rng, max_q=4, gaps=False):
+    n = rng.randint(1, max_q)
+    wires = list(range(n))
+    if gaps and n >= 2:
+        wires = sorted(set([n - 1] + [w for w in range(n - 1) if rng.random() < 0.5]))
+    ops = []
+    for _ in range(rng.randint(1, 9)):
+        fam = rng.choice(['ZPow', 'PhasedX', 'PhasedX', 'XXPow', 'MS'] if len(wires) >= 2 else ['ZPow', 'PhasedX'])
+        e, _ = draw_exp(rng)
+        sh = gates.draw_shift(rng) if rng.random() < 0.4 else 0.0
+        sym = rng.random() < 0.15
+        if fam == 'ZPow':
+            ops.append(dict(fam=fam, e=e, s=sh, w=[rng.choice(wires)], sym=sym))
+        elif fam == 'PhasedX':
+            ops.append(dict(fam=fam, e=e, s=sh, p=gates.draw_exp(rng), w=[rng.choice(wires)], sym=sym))
+        elif fam == 'XXPow':
+            ops.append(dict(fam=fam, e=e, s=sh, w=rng.sample(wires, 2), sym=sym))
+        else:
+            ops.append(dict(fam='MS', rads=gates.draw_angle(rng), w=rng.sample(wires, 2), sym=False))
+    return dict(vendor='aqt', ops=ops, strat=['N' if rng.random() < 0.2 else 'E' for _ in ops])
+
+
+def aqt_circuit(cirq, case):
+    """(circuit with symbols, resolver): some exponents are symbols resolved by the ParamResolver handed to _generate_json."""
+    import sympy
+    q = cirq.LineQubit
+    c, res = cirq.Circuit(), {}
+    for i, (o, st) in enumerate(zip(case['ops'], case['strat'])):
+        f = o['fam']
+        e = o.get('e')
+        if o.get('sym'):
+            res[f'a{i}'] = e
+            e = sympy.Symbol(f'a{i}')
+        if f == 'ZPow':
+            g = cirq.ZPowGate(exponent=e, global_shift=o['s'])
+        elif f == 'PhasedX':
+            g = cirq.PhasedXPowGate(phase_exponent=o['p'], exponent=e, global_shift=o['s'])
+        elif f == 'XXPow':
+            g = cirq.XXPowGate(exponent=e, global_shift=o['s'])
+        elif f == 'MS':
+            g = cirq.ms(o['rads'])
+        else:
+            g = {'XPow': cirq.XPowGate, 'YPow': cirq.YPowGate, 'HPow': cirq.HPowGate, 'CZPow': cirq.CZPowGate, 'CXPow': cirq.CXPowGate}[f](exponent=e)
+        c.append(g.on(*[q(w) for w in o['w']]), strategy=cirq.InsertStrategy.NEW if st == 'N' else cirq.InsertStrategy.EARLIEST)
+    return c, cirq.ParamResolver(res)
+
+
+def aqt_ref_term(o):
+    ax = gates.nlist(o['w'])
+    f = o['fam']
+    if f == 'MS':
+        g = gates.G('MS', dict(rads=o['rads']), (2, 2))
+    elif f == 'PhasedX':
+        g = gates.G('PhasedX', dict(p=o['p'], e=o['e'], s=o['s']), (2,))
+    else:
+        g = gates.G(f, dict(e=o['e'], s=o['s']), (2,) * len(o['w']))
+    return f'({g.coq()}, {ax})'
+
+
+def aqt_units(e):
+    return f'{gates.fc(unit(math.pi * e / 2))} {gates.fc(unit(-math.pi * e / 2))}'
+
+
+def aqt_phase_units(p):
+    return f'{gates.fc(unit(math.pi * p))} {gates.fc(unit(-math.pi * p))}'
+
+
+def aqt_legacy_term(seq):
+    """json.loads of the _generate_json string -> Gallina list aqt_legacy"""
+    out = []
+    for op in seq:
+        if not isinstance(op, list) or not op or not isinstance(op[0], str):
+            raise Unrecognised(f'legacy op {op!r}')
+        name = op[0]
+        if name in ('Z', 'MS') and len(op) == 3 and isinstance(op[2], list):
+            out.append(f'({"LZ" if name == "Z" else "LMS"} {aqt_units(_num(op[1]))} {gates.nlist(_ints(op[2]))})')
+        elif name == 'R' and len(op) == 4 and isinstance(op[3], list):
+            out.append(f'(LR {aqt_units(_num(op[1]))} {aqt_phase_units(_num(op[2]))} {gates.nlist(_ints(op[3]))})')
+        elif name == 'Meas':
+            out.append('LMeas')
+        else:
+            out.append('LUnknown')
+    return '[' + ';\n   '.join(out) + ']'
+
+
+def aqt_v1_term(v1):
+    out = []
+    for op in v1:
+        name, keys = op.get('operation'), set(op) - {'operation'}
+        if name == 'RZ' and keys == {'qubit', 'phi'}:
+            out.append(f'(VRZ {aqt_units(_num(op["phi"]))} {_ints([op["qubit"]])[0]}%nat)')
+        elif name == 'R' and keys == {'qubit', 'theta', 'phi'}:
+            out.append(f'(VR {aqt_units(_num(op["theta"]))} {aqt_phase_units(_num(op["phi"]))} {_ints([op["qubit"]])[0]}%nat)')
+        elif name == 'RXX' and keys == {'qubits', 'theta'}:
+            out.append(f'(VRXX {aqt_units(_num(op["theta"]))} {gates.nlist(_ints(op["qubits"]))})')
+        elif name == 'MEASURE' and not keys:
+            out.append('VMEASURE')
+        else:
+            raise Unrecognised(f'v1 op {op!r}')
+    return '[' + ';\n   '.join(out) + ']'
+
+
+def np_aqt_gate(op):
+    """numpy reading of AQT's documented definitions for one v1 op -> (matrix, wires) or None for MEASURE"""
+    X, Y = _P[1], _P[2]
+    name = op['operation']
+    if name == 'RZ':
+        a = math.pi * op['phi'] / 2
+        return np.diag([cmath.exp(-1j * a), cmath.exp(1j * a)]), [op['qubit']]
+    if name == 'R':
+        a, ph = math.pi * op['theta'] / 2, math.pi * op['phi']
+        return math.cos(a) * np.eye(2) - 1j * math.sin(a) * (math.cos(ph) * X + math.sin(ph) * Y), [op['qubit']]
+    if name == 'RXX':
+        a = math.pi * op['theta'] / 2
+        return math.cos(a) * np.eye(4) - 1j * math.sin(a) * np.kron(X, X), list(op['qubits'])
+    if name == 'MEASURE':
+        return None
+    raise Unrecognised(name)
+
+
+def aqt_payload(cirq, mods, case):
+    circuit, res = aqt_circuit(cirq, case)
+    sampler = mods['cirq_aqt'].AQTSampler('workspace', 'resource', 'token')
+    js = sampler._generate_json(circuit=circuit, param_resolver=res)
+    return js, sampler._parse_legacy_circuit_json(js)
+
+
+def aqt_oracle(cirq, mods, rep):
+    case = rep['case']
+    n = 1 + max(w for o in case['ops'] for w in o['w'])
+    js, v1 = aqt_payload(cirq, mods, case)
+    if not v1 or v1[-1] != {'operation': 'MEASURE'} or sum(op['operation'] == 'MEASURE' for op in v1) != 1:
+        return False
+    circuit, res = aqt_circuit(cirq, case)
+    ref = cirq.unitary(cirq.Circuit(cirq.resolve_parameters(circuit, res).all_operations(), cirq.Moment(cirq.I(q) for q in cirq.LineQubit.range(n))))
+    got = np_prog_unitary([np_aqt_gate(op) for op in v1[:-1]], n)
+    legacy = json.loads(js)
+    got2 = np_prog_unitary([np_aqt_gate(dict(operation='RZ', phi=o[1], qubit=o[2][0]) if o[0] == 'Z' else
+                                        dict(operation='R', theta=o[1], phi=o[2], qubit=o[3][0]) if o[0] == 'R' else
+                                        dict(operation='RXX', theta=o[1], qubits=o[2])) for o in legacy], n)
+    return np_phase_dist(got, ref) < 1e-6 and np_phase_dist(got2, ref) < 1e-6
+
+
+def aqt_payload_stream(ctx, cirq, mods, checks, n):
+    rng = ctx.rng
+    for _ in range(n):
+        case = gen_aqt_case(rng, gaps=rng.random() < 0.3)
+        rep = dict(kind='aqt_payload', case=case)
+        try:
+            js, v1 = aqt_payload(cirq, mods, case)
+        except Exception as e:
+            ctx.disagree('correspondence:aqt_payload', f'{type(e).__name__}: {e}', f'aqt_payload:raises:{type(e).__name__}',
+                         f'AQTSampler._generate_json / _parse_legacy_circuit_json raised {type(e).__name__}: {e} on a circuit over the accepted vocabulary', rep)
+            continue
+        nq = 1 + max(w for o in case['ops'] for w in o['w'])
+        ops = case['ops']
+        share = any(set(a['w']) & set(b['w']) for i, a in enumerate(ops) for b in ops[i + 1:])
+        ctx.count('aqt_payload', case, share and any(o['fam'] != 'ZPow' for o in ops), sample=dict(ops=ops[:4], json=js[:300], v1=v1[:4]))
+        try:
+            leg, v1t = aqt_legacy_term(json.loads(js)), aqt_v1_term(v1)
+        except Unrecognised as e:
+            ctx.mark_broken('correspondence:aqt_payload', f'payload shape not covered by the model: {e}')
+            continue
+        win = any(abs((o.get('e', 0.3) - t + 1) % 2 - 1) < 1e-7 and o.get('e') not in (1.0, 0.5, -0.5, 0.25, -0.25) for o in ops for t in SPECIALS)
+        ref = '[' + ';\n   '.join(aqt_ref_term(o) for o in ops) + ']'
+        expr = (f'let ref := circ_unitary FOps (repeat 2%nat {nq}) {ref} in\n'
+                f' match aqt_legacy_unitary FOps {nq} {leg}, aqt_v1_unitary FOps {nq} {v1t} with\n'
+                f' | Some a, Some b => fcll_close_phase {TOL} a ref && fcll_close_phase {TOL} b ref\n | _, _ => false end')
+        checks.append(('aqt_payload', expr, rep))
+
+
+# ---- AQT results: the remote path with the HTTP layer replaced, and the local simulator ----
+class FakeAQT:
+    """The vendor behind AQTSampler._send_json: keeps the submitted job; answers with `samples` if given, else with the
+    (deterministic) outcome of the submitted v1 circuit under the documented definitions, one bit per qubit in index order."""
+
+    def __init__(self, samples=None):
+        self.samples, self.sub = samples, None
+
+    def post(self, url, json=None, headers=None, **kw):
+        import json as J
+        self.sub = J.loads(J.dumps(json))
+        return _Resp({'job': {'job_id': 'job-7'}, 'response': {'status': 'queued'}})
+
+    def get(self, url, headers=None, **kw):
+        c = self.sub['payload']['circuits'][0]
+        n, reps = c['number_of_qubits'], c['repetitions']
+        if self.samples is not None:
+            rows = self.samples
+        else:
+            qc = c['quantum_circuit']
+            assert qc[-1] == {'operation': 'MEASURE'}
+            psi = np_prog_unitary([np_aqt_gate(op) for op in qc[:-1]], n)[:, 0]
+            j = int(np.argmax(np.abs(psi)))
+            assert abs(abs(psi[j]) - 1) < 1e-9, 'not a classical circuit'
+            rows = [[(j >> (n - 1 - k)) & 1 for k in range(n)]] * reps
+        return _Resp({'job': {'job_id': 'job-7'}, 'response': {'status': 'finished', 'result': {'0': rows}}})
+
+
+def gen_aqt_classical(rng):
+    n = rng.randint(1, 5)
+    ops = []
+    for _ in range(rng.randint(n, n + 6)):
+        f = rng.choice(['PhasedX', 'PhasedX', 'ZPow', 'XXPow'] if n >= 2 else ['PhasedX', 'ZPow'])
+        if f == 'PhasedX':
+            ops.append(dict(fam=f, e=rng.choice([1.0, 1.0, 3.0, -1.0]), s=0.0, p=gates.draw_exp(rng), w=[rng.randrange(n)], sym=False))
+        elif f == 'ZPow':
+            ops.append(dict(fam=f, e=gates.draw_exp(rng), s=0.0, w=[rng.randrange(n)], sym=False))
+        else:
+            ops.append(dict(fam=f, e=rng.choice([1.0, -1.0, 3.0]), s=0.0, w=rng.sample(range(n), 2), sym=False))
+    # every qubit 0..n-1 must occur: the sampler sizes the register by the number of qubits in the circuit
+    for w in range(n):
+        if not any(w in o['w'] for o in ops):
+            ops.append(dict(fam='ZPow', e=0.5, s=0.0, w=[w], sym=False))
+    return dict(vendor='aqt', ops=ops, strat=['E'] * len(ops))
+
+
+def aqt_results_run(cirq, mods, rep):
+    from unittest import mock
+    import cirq_aqt.aqt_sampler as am
+    case = rep['case']
+    circuit, res = aqt_circuit(cirq, case)
+    if rep['mode'] == 'local':
+        out = mods['cirq_aqt'].AQTSamplerLocalSimulator(simulate_ideal=True).run_sweep(circuit, params=res, repetitions=rep['reps'])
+    else:
+        srv = FakeAQT(rep.get('samples'))
+        with mock.patch.object(am, 'post', srv.post), mock.patch.object(am, 'get', srv.get), mock.patch.object(am.time, 'sleep', lambda s: None):
+            out = mods['cirq_aqt'].AQTSampler('workspace', 'resource', 'token').run_sweep(circuit, params=res, repetitions=rep['reps'])
+    assert len(out) == 1
+    return {k: [[int(b) for b in row] for row in np.asarray(v)] for k, v in out[0].measurements.items()}
+
+
+def aqt_results_oracle(cirq, mods, rep):
+    case = rep['case']
+    n = 1 + max(w for o in case['ops'] for w in o['w'])
+    got = aqt_results_run(cirq, mods, rep)
+    if rep.get('samples') is not None:
+        want = rep['samples']
+    else:
+        bits = [0] * n
+        for o in case['ops']:
+            if o['fam'] in ('PhasedX', 'XXPow'):
+                for w in o['w']:
+                    bits[w] ^= 1
+        want = [bits] * rep['reps']
+    return got == {'m': want}
+
+
+def aqt_results_stream(ctx, cirq, mods, n):
+    rng = ctx.rng
+    for _ in range(n):
+        case = gen_aqt_classical(rng)
+        nq = 1 + max(w for o in case['ops'] for w in o['w'])
+        mode = rng.choice(['remote', 'remote', 'local'])
+        reps = rng.randint(1, 4)
+        rep = dict(kind='aqt_results', case=case, mode=mode, reps=reps)
+        if mode == 'remote' and rng.random() < 0.5:
+            rep['samples'] = [[rng.randrange(2) for _ in range(nq)] for _ in range(reps)]
+        ctx.count('aqt_results', rep, nq >= 2, sample=rep)
+        try:
+            ok = aqt_results_oracle(cirq, mods, rep)
+        except Exception as e:
+            ctx.disagree('correspondence:aqt_results', f'{type(e).__name__}: {e}', f'aqt_results:raises:{type(e).__name__}',
+                         f'running a classical circuit through the AQT sampler ({mode}) raised {type(e).__name__}: {e}', rep)
+            continue
+        if not ok:
+            ctx.disagree('correspondence:aqt_results', json.dumps(rep)[:300], f'aqt_results:{mode}',
+                         f'AQT samples are not assigned to key m / the qubits in index order ({mode}): {json.dumps(rep)[:300]}', rep)
+
+
+AQT_UNSUPPORTED = ['XPow', 'YPow', 'HPow', 'CZPow', 'CXPow', 'measurement', 'grid_qubit', 'named_qubit', 'empty_circuit',
+                   'unresolved_symbol', 'classically_controlled', 'circuit_operation', 'depolarize', 'gapped_qubits_local',
+                   'qutrit_Z', 'negative_line_qubit']
+
+
+def aqt_reject_oracle(cirq, mods, rep):
+    import sympy
+    name, e = rep['name'], rep['e']
+    q = cirq.LineQubit.range(3)
+    run_local = False
+    if name in ('XPow', 'YPow', 'HPow', 'CZPow', 'CXPow'):
+        g = {'XPow': cirq.XPowGate, 'YPow': cirq.YPowGate, 'HPow': cirq.HPowGate, 'CZPow': cirq.CZPowGate, 'CXPow': cirq.CXPowGate}[name](exponent=e)
+        circuit = cirq.Circuit(cirq.Z(q[0]) ** 0.5, g.on(*q[:cirq.num_qubits(g)]))
+    elif name == 'measurement':
+        circuit = cirq.Circuit(cirq.Z(q[0]) ** e, cirq.measure(q[0], key='m'))
+    elif name == 'grid_qubit':
+        circuit = cirq.Circuit((cirq.Z ** e)(cirq.GridQubit(0, 1)))
+    elif name == 'named_qubit':
+        circuit = cirq.Circuit((cirq.Z ** e)(cirq.NamedQubit('a')))
+    elif name == 'empty_circuit':
+        circuit = cirq.Circuit()
+    elif name == 'unresolved_symbol':
+        circuit = cirq.Circuit((cirq.Z ** sympy.Symbol('t'))(q[0]))
+    elif name == 'classically_controlled':
+        circuit = cirq.Circuit((cirq.Z ** e)(q[0]).with_classical_controls('k'))
+    elif name == 'circuit_operation':
+        circuit = cirq.Circuit(cirq.CircuitOperation(cirq.FrozenCircuit((cirq.Z ** e)(q[0]))))
+    elif name == 'depolarize':
+        circuit = cirq.Circuit(cirq.depolarize(0.1)(q[0]))
+    elif name == 'gapped_qubits_local':
+        circuit = cirq.Circuit(cirq.PhasedXPowGate(phase_exponent=0.0)(q[0]), cirq.PhasedXPowGate(phase_exponent=0.0)(q[2]))
+        run_local = True
+    elif name == 'qutrit_Z':
+        circuit = cirq.Circuit(cirq.ZPowGate(exponent=e, dimension=3)(cirq.LineQid(0, dimension=3)))
+    elif name == 'negative_line_qubit':
+        circuit = cirq.Circuit((cirq.Z ** e)(cirq.LineQubit(-1)), cirq.PhasedXPowGate(phase_exponent=0.0)(q[0]))
+    else:
+        raise KeyError(name)
+    sampler = mods['cirq_aqt'].AQTSampler('workspace', 'resource', 'token')
+    try:
+        if run_local:
+            out = mods['cirq_aqt'].AQTSamplerLocalSimulator(simulate_ideal=True).run_sweep(circuit, params=None, repetitions=1)
+            rep['_outcome'] = 'accepted'
+            return [[int(b) for b in row] for row in out[0].measurements['m']] == [[1, 0, 1]]
+        js = sampler._generate_json(circuit=circuit, param_resolver=cirq.ParamResolver({}))
+        v1 = sampler._parse_legacy_circuit_json(js)
+    except Exception as ex:
+        rep['_outcome'] = type(ex).__name__
+        return True
+    rep['_outcome'] = 'accepted'
+    # accepted: the payload must still mean the circuit, on qubits it can name
+    qs = sorted(circuit.all_qubits())
+    if not all(isinstance(x, cirq.LineQubit) and x.x >= 0 for x in qs) or not cirq.has_unitary(circuit):
+        return False
+    n = qs[-1].x + 1
+    ref = cirq.unitary(cirq.Circuit(circuit.all_operations(), cirq.Moment(cirq.I(x) for x in cirq.LineQubit.range(n))))
+    try:
+        got = np_prog_unitary([np_aqt_gate(op) for op in v1[:-1]], n)
+    except Exception:
+        return False
+    return np_phase_dist(got, ref) < 1e-8
+
+
+def aqt_reject_stream(ctx, cirq, mods, rounds):
+    rng = ctx.rng
+    for name in AQT_UNSUPPORTED * rounds:
+        rep = dict(kind='aqt_reject', name=name, e=rng.choice([1.0, 0.5, -0.5, 0.3217, 2.0]))
+        try:
+            ok = aqt_reject_oracle(cirq, mods, rep)
+        except Exception as ex:
+            ctx.mark_broken('correspondence:aqt_reject', f'{name}: oracle failed: {type(ex).__name__}: {ex}')
+            continue
+        outcome = rep.pop('_outcome', '?')
+        ctx.count('aqt_reject', [name, rep['e']], True, sample=dict(name=name, e=rep['e'], outcome=outcome))
+        ctx.cov.setdefault('aqt_reject_outcomes', {}).setdefault(name, outcome)
+        if not ok:
+            sig = 'aqt_reject:qubit_validation' if name in ('qutrit_Z', 'negative_line_qubit') else f'aqt_reject:{name}'
+            ctx.disagree('correspondence:aqt_reject', f'{name}', sig,
+                         f'unsupported content `{name}` is neither rejected by AQTSampler._generate_json nor kept: the operation list '
+                         f'names something else than the circuit', rep)
+
+
+# ---- Pasqal: the request body is the Cirq JSON of the resolved circuit; the response body is Cirq JSON of the result ----
+def pasqal_oracle(cirq, mods, rep):
+    from unittest import mock
+    import sympy
+    cp = mods['cirq_pasqal']
+    rng_ops = rep['ops']
+    qubits = [cp.TwoDQubit(x, y) for x, y in rep['qubits']] if rep['dim'] == 2 else [cp.ThreeDQubit(x, y, z) for x, y, z in rep['qubits']]
+    c, res = cirq.Circuit(), {}
+    for i, o in enumerate(rng_ops):
+        e = o['e']
+        if o['sym']:
+            res[f's{i}'] = e
+            e = sympy.Symbol(f's{i}')
+        g = {'X': cirq.XPowGate, 'Y': cirq.YPowGate, 'Z': cirq.ZPowGate, 'H': cirq.HPowGate, 'CZ': cirq.CZPowGate}[o['g']](exponent=e)
+        c.append(g.on(*[qubits[w] for w in o['w']]), strategy=cirq.InsertStrategy.NEW)
+    c.append(cirq.measure(*qubits, key=rep['key']), strategy=cirq.InsertStrategy.NEW)
+    device = cp.PasqalVirtualDevice(control_radius=1.5, qubits=qubits)
+    sampler = cp.PasqalSampler(remote_host='http://example.invalid', access_token='t', device=device)
+    resolver = cirq.ParamResolver(res)
+    body = sampler._serialize_circuit(circuit=c, param_resolver=resolver)
+    back = cirq.read_json(json_text=body)
+    if back != cirq.resolve_parameters(c, resolver) or cirq.is_parameterized(back):
+        return False
+    # the whole run_sweep with the HTTP layer replaced: the posted body is that JSON, the answer is decoded as sent
+    want = cirq.ResultDict(params=resolver, measurements={rep['key']: np.array(rep['rows'], dtype=np.uint8)})
+    seen = {}
+
+    class R:
+        def __init__(self, text):
+            self.text = text
+
+        def raise_for_status(self):
+            pass
+
+    def post(url, headers=None, data=None, **kw):
+        seen['data'], seen['reps'] = data, headers.get('Repetitions')
+        return R('task-1')
+
+    def get(url, headers=None, **kw):
+        return R(cirq.to_json(want))
+
+    import cirq_pasqal.pasqal_sampler as pm
+    with mock.patch.object(pm.requests, 'post', post), mock.patch.object(pm.requests, 'get', get):
+        out = sampler.run_sweep(c, params=resolver, repetitions=len(rep['rows']))
+    return len(out) == 1 and out[0] == want and seen['data'] == body and seen['reps'] == str(len(rep['rows']))
+
+
+def pasqal_stream(ctx, cirq, mods, n):
+    rng = ctx.rng
+    for _ in range(n):
+        dim = rng.choice([2, 3])
+        k = rng.randint(1, 4)
+        x0 = rng.randrange(3)
+        qubits = [[x0 + i, 0] + ([0] if dim == 3 else []) for i in range(k)]      # a line with unit spacing (CZ only between neighbours)
+        ops = []
+        for _ in range(rng.randint(1, 6)):
+            g = rng.choice(['X', 'Y', 'Z', 'H', 'CZ'] if k >= 2 else ['X', 'Y', 'Z', 'H'])
+            ops.append(dict(g=g, e=1.0 if g in ('H', 'CZ') else gates.draw_exp(rng), sym=g not in ('H', 'CZ') and rng.random() < 0.3,
+                            w=(lambda a: [a, a + 1] if rng.random() < 0.5 else [a + 1, a])(rng.randrange(k - 1)) if g == 'CZ' else [rng.randrange(k)]))
+        reps = rng.randint(1, 3)
+        rep = dict(kind='pasqal', dim=dim, qubits=qubits, ops=ops, key=rng.choice(['m', 'out', 'k y']),
+                   rows=[[rng.randrange(2) for _ in range(k)] for _ in range(reps)])
+        ctx.count('pasqal', rep, len(ops) >= 2, sample=rep)
+        try:
+            ok = pasqal_oracle(cirq, mods, rep)
+        except Exception as e:
+            ctx.disagree('correspondence:pasqal', f'{type(e).__name__}: {e}', f'pasqal:raises:{type(e).__name__}',
+                         f'PasqalSampler round trip raised {type(e).__name__}: {e} on {json.dumps(rep)[:200]}', rep)
+            continue
+        if not ok:
+            ctx.disagree('correspondence:pasqal', json.dumps(rep)[:300], 'pasqal:roundtrip',
+                         f'the Pasqal request body does not read back as the resolved circuit / the result is not decoded as sent: {json.dumps(rep)[:300]}', rep)
+
+
 def run(ctx):
     mods = env.import_cirq(('cirq_ionq', 'cirq_aqt', 'cirq_pasqal'))
     cirq = mods['cirq']
@@ -1153,6 +1616,10 @@ def run(ctx):
     results_stream(ctx, cirq, mods, dchecks, 200 if q else 3000)
     e2e_stream(ctx, cirq, mods, 60 if q else 800)
     reject_stream(ctx, cirq, mods, 3 if q else 30)
+    aqt_payload_stream(ctx, cirq, mods, checks, 160 if q else 2500)
+    aqt_results_stream(ctx, cirq, mods, 60 if q else 800)
+    aqt_reject_stream(ctx, cirq, mods, 2 if q else 20)
+    pasqal_stream(ctx, cirq, mods, 40 if q else 500)
     evaluate(ctx, cirq, mods, checks)
     evaluate_discrete(ctx, cirq, mods, dchecks)
 
